@@ -16,6 +16,8 @@ let tok_of_dbl (d : Model.dbl) =
       while Z.is_even !m do m := Z.shift_right !m 1; e := Z.succ !e done;
       Z.to_string !m ^ ":" ^ Z.to_string !e end
 
+let rat_observed = ref false
+
 let obs (s : Model.pstate) =
   let b = Buffer.create 256 in
   Buffer.add_string b "b=";
@@ -30,6 +32,7 @@ let obs (s : Model.pstate) =
   Buffer.add_string b " t=";
   List.iter (fun x -> Buffer.add_string b (tok_of_dbl x ^ ",")) s.Model.tv;
   Buffer.add_string b " lp=same";
+  if !rat_observed then Buffer.add_string b (" rat=" ^ string_of_z s.Model.rat);
   Buffer.contents b
 
 (* oracle for std::stod supplied with the case: "-" = throws *)
@@ -44,6 +47,7 @@ let () =
       | [] -> ()
       | "CASE" :: id :: _ ->
         st := Model.c15_init [];
+        rat_observed := false;
         Printf.printf "CASE %s\ninit %s\n" id (obs !st)
       | op :: args ->
         let o = match op, args with
@@ -58,6 +62,7 @@ let () =
               | _ -> [] in
             Some (Model.OLoad (pairs rest))
           | "X", _ -> Some Model.OReset
+          | "LOADLP", _ -> rat_observed := true; Some Model.OLoadLP
           | "C", rest ->
             let rec go (b, i, r) = function
               | "B" :: k :: v :: tl -> go ((nat_of_int (int_of_string k), v = "1") :: b, i, r) tl
